@@ -32,7 +32,7 @@ sys.path.insert(0, ROOT)
 
 class Job:
     def __init__(self, pkg, templates, params=None, only=None, tier="quick", solver="z3a2:10000,cvc5:20000,z3new,z3s", tags="purego",
-                 timeout_ms=60000, jobs=4, cross=None, label=None, skip_quick=None, goarch=None):
+                 timeout_ms=60000, jobs=4, cross=None, label=None, skip_quick=None, goarch=None, skip=None):
         self.pkg = pkg                # import path relative to module, e.g. "ecc/bn254/fr"
         self.templates = templates    # list of template paths relative to /verif/harness
         self.params = params or {}
@@ -45,6 +45,7 @@ class Job:
         self.cross = cross
         self.label = label or pkg
         self.skip_quick = skip_quick
+        self.skip = skip  # regexp of harness names not run for this package in any tier (bounds that do not run clean)
         self.goarch = goarch  # regexp of harness names left to the thorough tier for this package
 
 
@@ -89,6 +90,7 @@ def prepare(prop, idx, job):
     params.setdefault("Pkg", pkg_name(pkgdir))
     params.setdefault("Module", MODULE)
     params.setdefault("PkgPath", MODULE + "/" + job.pkg)
+    params["Native"] = 0
     wd = os.path.join(WORK, prop, "%03d_%s" % (idx, job.label.replace("/", "_")))
     shutil.rmtree(wd, ignore_errors=True)
     os.makedirs(wd)
@@ -116,6 +118,11 @@ def prepare(prop, idx, job):
             np_ = os.path.join(wd, "h%d_native.go" % k)
             open(np_, "w").write(render(nt, params))
             nfiles.append(np_)
+        elif "//IF Native" in open(os.path.join(ROOT, "harness", t)).read() or "//IF !Native" in open(os.path.join(ROOT, "harness", t)).read():
+            # the same template rendered for the native build (//IF Native ... //ENDIF blocks)
+            np_ = os.path.join(wd, "h%d_native.go" % k)
+            open(np_, "w").write(render(os.path.join(ROOT, "harness", t), dict(params, Native=1)))
+            nfiles.append(np_)
         else:
             nfiles.append(hp)
     rp = dict(params)
@@ -134,6 +141,8 @@ def run_gosmt(prop, idx, job, files, only, extra_args=()):
     cmd = [GOSMT, "-dir", REPO, "-pkg", MODULE + "/" + job.pkg, "-overlay", ",".join(ov), "-tags", job.tags,
            "-solver", job.solver, "-j", str(job.jobs), "-out", out, "-timeout", str(job.timeout_ms)]
     o = only or job.only
+    if not o and job.skip:
+        o = "^(" + "|".join(h for h in files["harnesses"] if not re.search(job.skip, h)) + ")$"
     if not o and TIER != "thorough" and (files.get("thorough_only") or job.skip_quick):
         keep = [h for h in files["harnesses"] if h not in files["thorough_only"]
                 and not (job.skip_quick and re.search(job.skip_quick, h))]
@@ -295,7 +304,7 @@ def main():
     spec = checks.PROPS[prop]
     jobs = [j for j in spec["jobs"] if j.tier == "quick" or args.tier == "thorough"]
     if args.pkg:
-        jobs = [j for j in jobs if args.pkg in j.label]
+        jobs = [j for j in jobs if re.search(args.pkg, j.label)]
     seed = int(os.environ.get("VERIF_SEED", "0") or 0)
     t0 = time.time()
     if not os.path.exists(GOSMT):
